@@ -82,6 +82,7 @@ type c12Config struct {
 	Fill  uint8  `json:"fill"`
 	Bytes string `json:"bytes"`
 	Run   bool   `json:"run,omitempty"`
+	BPs   bool   `json:"breakpoints,omitempty"` // Run with a non-empty BreakPoints map (one address, 7777, off the program's path)
 }
 
 var c12MemLens = []int{-1, 0, 1, 256, 32768, -2}
@@ -281,11 +282,17 @@ func c12Run(cfg *c12Config, sc *c12Scratch) []string {
 		return nil // program does not halt within the budget: Run is not obliged to return
 	}
 	cpu, _ := mk()
+	if cfg.BPs {
+		cpu.BreakPoints = map[uint16]struct{}{0x7777: {}}
+	}
 	var err error
 	func() {
 		defer func() { pan = recover() }()
 		err = cpu.Run(bgCtx)
 	}()
+	if cfg.BPs && pan == nil && err == z80.ErrBreakPoint && cpu.PC == 0x7777 {
+		return nil // the program wandered onto the breakpoint: not this check's subject
+	}
 	if pan != nil {
 		if wp, ok := pan.(watchdogPanic); ok {
 			return []string{fmt.Sprintf("Run did not return although the program halts (watchdog after %d accesses)", wp.n)}
@@ -416,7 +423,7 @@ func checkC12(c *Ctx) {
 			}
 		}
 	}
-	c.Rule = fmt.Sprintf("every decode path (%d byte prefixes incl. all 65536 (d,op) pairs after DDCB/FDCB) x %d operand byte patterns x %d configurations (memory kind {64K array, DumbMemory len 0/1/256/32768, MapMemory} / IO kind {nil, DumbIO len 0/1/128/256} / IM {0,1,2,-1,3,MaxInt} / PC {0000,0100,FFFC..FFFF} / SP / pending request {none, NMI, unknown types, IM1, IM2, mode-0 data of 1..4 bytes and 70000 bytes} one at a time around a default, thorough: pairs); all 256 single-byte opcodes and multi-byte forms as mode-0 data x IM x IFF1 x PC x memory kind; mode-0 data of 5/8/300 bytes starting with each of the 256 opcodes with every pointer register aimed into and around [PC, PC+len); Run on a halting program with every request kind pending x IM x IFF1; Run vs Step-driven twin on every decode path as a one-instruction program in HALT-filled memory. the real DumbMemory (6 lengths) and MapMemory passed to the CPU unwrapped x every decode path x operand patterns x 4 PCs x 7 SPs; memories filled with a single prefix/opcode byte; Oracle: no panic, deterministic watchdog (4096 accesses per Step), unsupported opcodes only consumed. Non-trivial = the configuration deviates from the default in memory/IO/IM/request or the path is an unsupported or prefix-only encoding (counted).", len(paths), len(operandPats), len(cfgs))
+	c.Rule = fmt.Sprintf("every decode path (%d byte prefixes incl. all 65536 (d,op) pairs after DDCB/FDCB) x %d operand byte patterns x %d configurations (memory kind {64K array, DumbMemory len 0/1/256/32768, MapMemory} / IO kind {nil, DumbIO len 0/1/128/256} / IM {0,1,2,-1,3,MaxInt} / PC {0000,0100,FFFC..FFFF} / SP / pending request {none, NMI, unknown types, IM1, IM2, mode-0 data of 1..4 bytes and 70000 bytes} one at a time around a default, thorough: pairs); all 256 single-byte opcodes and multi-byte forms as mode-0 data x IM x IFF1 x PC x memory kind; mode-0 data of 5/8/300 bytes starting with each of the 256 opcodes with every pointer register aimed into and around [PC, PC+len); Run on a halting program with every request kind pending x IM x IFF1; Run vs Step-driven twin on every decode path as a one-instruction program in HALT-filled memory (at 0100, FFC0 and FFFA, with and without a non-empty BreakPoints map). the real DumbMemory (6 lengths) and MapMemory passed to the CPU unwrapped x every decode path x operand patterns x 4 PCs x 7 SPs; memories filled with a single prefix/opcode byte; an embedder re-pointing CPU.Memory/CPU.IO from inside the callback at access 0..4 of the Step x all 256 first bytes x 4 tails, from memory and as mode-0 data; Oracle: no panic, deterministic watchdog (4096 accesses per Step), unsupported opcodes only consumed. Non-trivial = the configuration deviates from the default in memory/IO/IM/request or the path is an unsupported or prefix-only encoding (counted).", len(paths), len(operandPats), len(cfgs))
 	c.Bound = "decode tree x configuration lattice " + c.Tier
 	var evals, nontriv [16 * 8]int64
 	var capped int32
@@ -468,6 +475,24 @@ func checkC12(c *Ctx) {
 				d := c12Run(&cfg, sc)
 				ev++
 				nt++
+				if d == nil && mk == 0 {
+					// the same at the top of the address space, with and without a breakpoint map
+					for _, pc := range []uint16{0xFFC0, 0xFFFA} {
+						for _, bps := range []bool{false, true} {
+							cfg2 := cfg
+							cfg2.PC, cfg2.BPs = pc, bps
+							if d = c12Run(&cfg2, sc); d != nil {
+								cfg = cfg2
+								break
+							}
+							ev++
+							nt++
+						}
+						if d != nil {
+							break
+						}
+					}
+				}
 				if d != nil {
 					c.Report("c12/run:"+name, pi, "", cfg, cloneStrings(d))
 					break
@@ -511,6 +536,60 @@ func checkC12(c *Ctx) {
 				}
 			}
 		}
+	}
+	// an embedder that switches banks by re-pointing CPU.Memory (and CPU.IO) from inside a device callback, at
+	// the k-th access of the Step: which object serves the remaining accesses is nobody's promise, but the
+	// Step must not panic, with the instruction in memory or supplied as mode-0 data
+	{
+		var ns int64
+		for b0 := 0; b0 < 256; b0++ {
+			for _, tail := range [][]uint8{nil, {0x34, 0x12}, {0xCB, 0x01, 0x06}, {0x10, 0x20, 0x30}} {
+				data := append([]uint8{uint8(b0)}, tail...)
+				for _, pc := range []uint16{0x0100, 0xFFFE} {
+					for _, sp := range []uint16{0x8000, pc + 1, 0x0000} {
+						for at := 0; at < 5; at++ {
+							for mode0 := 0; mode0 < 2; mode0++ {
+								flat := c12BuildMem(0, 0x00, pc, nil, sc0).(*fastMem)
+								sw := &swapDev{under: flat, at: at}
+								a, b := &swapMem{sw}, &swapMem{sw}
+								sw.objs = [2]z80.Memory{a, b}
+								ioA, ioB := &swapIO{sw}, &swapIO{sw}
+								sw.ios = [2]z80.IO{ioA, ioB}
+								cpu := z80.CPU{Memory: a, IO: ioA}
+								sw.cpu = &cpu
+								cpu.PC, cpu.SP, cpu.IM, cpu.IFF1 = pc, sp, 0, true
+								if mode0 == 1 {
+									cpu.Interrupt = &z80.Interrupt{Type: z80.IMType, Data: data}
+								} else {
+									for i, x := range data {
+										flat.Set(pc+uint16(i), x)
+									}
+								}
+								var pan interface{}
+								func() {
+									defer func() { pan = recover() }()
+									cpu.Step()
+									cpu.Step()
+								}()
+								ns++
+								for _, wa := range sw.written {
+									flat.Set(wa, 0x00)
+								}
+								for i := range data {
+									flat.Set(pc+uint16(i), 0x00)
+								}
+								if pan != nil {
+									cfg := map[string]interface{}{"bytes": hexBytes(data), "as_mode0_data": mode0 == 1, "pc": pc, "sp": sp, "swap_at_access": at}
+									c.Report(fmt.Sprintf("c12/reentrant:%02X", b0), ns, "", cfg, []string{fmt.Sprintf("instruction % X (as mode-0 request data: %v), PC=%04X SP=%04X; the device callback re-points CPU.Memory and CPU.IO at access %d of the Step: %v", data, mode0 == 1, pc, sp, at, pan)})
+								}
+							}
+						}
+					}
+				}
+			}
+		}
+		n += ns
+		c.Set("reentrant_bank_switch_cases", ns)
 	}
 	// the real memory types handed to the CPU UNWRAPPED (a wrapper hides the concrete type, and with it any
 	// type-dependent fast path): every decode path x operand patterns x lengths x SP/PC at the edges.
@@ -683,3 +762,39 @@ func replayC12(c *Ctx, raw []byte) []string {
 	}
 	return c12One(&cfg, c12Requests(), inv, nil)
 }
+
+// swapDev: two Memory objects and two IO objects over the same storage; at access number `at` the callback
+// re-points the CPU's fields to the other object of each pair (bank switching by replacing the object).
+type swapDev struct {
+	under   *fastMem
+	cpu     *z80.CPU
+	objs    [2]z80.Memory
+	ios     [2]z80.IO
+	at, n   int
+	written []uint16
+}
+
+func (s *swapDev) tick() {
+	if s.n == s.at {
+		s.cpu.Memory = s.objs[1]
+		s.cpu.IO = s.ios[1]
+	}
+	s.n++
+	if s.n > 4096 {
+		panic(watchdogPanic{s.n})
+	}
+}
+
+type swapMem struct{ d *swapDev }
+
+func (m *swapMem) Get(a uint16) uint8 { m.d.tick(); return m.d.under.Get(a) }
+func (m *swapMem) Set(a uint16, v uint8) {
+	m.d.tick()
+	m.d.written = append(m.d.written, a)
+	m.d.under.Set(a, v)
+}
+
+type swapIO struct{ d *swapDev }
+
+func (o *swapIO) In(p uint8) uint8     { o.d.tick(); return p ^ 0x5A }
+func (o *swapIO) Out(p uint8, v uint8) { o.d.tick() }
